@@ -73,6 +73,25 @@ def _install_worker_patches():
 
     core._PATCH_REGISTRATIONS[format] = _format
 
+    _orig_repr = core._PATCH_REGISTRATIONS.get(repr)
+
+    def _repr(obj):
+        # f"{value!r}" in error messages: same reasoning as for format
+        with NoTracing():
+            if isinstance(obj, CrossHairValue):
+                return "<sym>"
+        if _orig_repr is not None:
+            return _orig_repr(obj)
+        return repr(obj)
+
+    core._PATCH_REGISTRATIONS[repr] = _repr
+
+    # CrossHair may replace a call to any function that carries a contract by a fresh symbolic
+    # return value ("short-circuiting"); its own patch for the builtin `hash` has such a contract,
+    # so every hash() call in the code under test became a random binary decision (and aborted
+    # paths with "proxy intolerance").  The harnesses want the real callee executed, always.
+    core.ShortCircuitingContext.make_interceptor = lambda self, original: original
+
     import z3
 
     _check = z3.Solver.check
